@@ -88,16 +88,17 @@ type ServedBlock struct {
 
 // Served is the log entry of one call.
 type Served struct {
-	Seq    int
-	Global int
-	Poller bool
-	Method string
-	Arg    string
-	Full   bool
-	Failed string // fault kind if the request was failed
-	Blocks []ServedBlock
-	Addr   string
-	Topics string
+	Seq     int
+	Global  int
+	Poller  bool
+	Method  string
+	Arg     string
+	Full    bool
+	Batched bool   // the call arrived inside a JSON array
+	Failed  string // fault kind if the request was failed
+	Blocks  []ServedBlock
+	Addr    string
+	Topics  string
 }
 
 type Node struct {
@@ -424,7 +425,7 @@ func (n *Node) serve(w http.ResponseWriter, r *http.Request, tag string) {
 		if id == "" {
 			id = "null"
 		}
-		sv := Served{Seq: info.Seq, Global: info.Global, Poller: info.Poller, Method: c.Method, Arg: c.BlockArg, Full: c.Full}
+		sv := Served{Seq: info.Seq, Global: info.Global, Poller: info.Poller, Method: c.Method, Arg: c.BlockArg, Full: c.Full, Batched: batch}
 		var result string
 		switch c.Method {
 		case "eth_getBlockByNumber":
